@@ -3,7 +3,8 @@
         model : does the dispatch model explain the observation — a complete run for OK, a run into a deadlock for HANG
         spec  : no hang and every call has its reply; `-` when a handler of an unsafe burst calls
                 object_server().interface(), which the property text does not name
-        class : `-` inside the class where freedom from deadlock is proved ([safe]); otherwise the finding's name
+        class : `-` inside the class where freedom from deadlock is proved ([safe]); otherwise `handler_vs_introspect`
+                (an unsafe burst without lookups contains Introspect traffic: known_needs_introspect_or_lookup)
      L cases (on-demand creation):  L <variant> <n>
         model : does the start-up model (C30/Model.v) explain which calls were answered
         spec  : every call sent after at() returned was answered
@@ -15,8 +16,7 @@ From ZV Require Import Base.Bytes C29.Model C29.Spec C29.Exec C29.Parse C29.Judg
 Definition class_d (calls : list call) : bytes :=
   if safe calls then dash
   else if has_lookup calls then dash
-  else if prop_handler_mutates calls then B "prop_handler_mutates"
-  else B "method_vs_root_reader".
+  else B "handler_vs_introspect".
 
 Definition spec_d (calls : list call) (hang : bool) (l : list oev) : bytes :=
   let evs := evs_of l in
